@@ -81,17 +81,41 @@ def r1(idx, rep, tier):
             okb = False
             detail = f"blank last line: calls {calls}, result {p.result}; documented: only _do_lasts and clear_errors, returns True"
     rep.check(okb, "R3", f"{fi.file}::Matcher.matches blank-last branch", detail, K.where(fi, fi.node))
-    # _do_lasts activates only last() components
+    # _do_lasts activates only last() components: interpreted over a component tree
+    #   E ── last()                      → activated
+    #     ├─ print(…)                    → not activated, searched
+    #     │    └─ last()                 → activated (nested)
+    #     ├─ (last() -> print)           → the when/do is activated as a whole
+    #     ├─ (yes() -> last())           → not a last()-when: searched, its right side last() is activated
+    #     └─ #header                     → not activated
     fl = idx.method("Matcher", "_find_and_actvate_lasts")
     rep.analysed(fl)
-    calls = [n for n in walk_no_nested(fl.node) if isinstance(n, ast.Call) and call_name(n) == "matches"]
-    okl = bool(calls)
-    for c in calls:
-        g = K.guard_of(fl, c)
-        pos = " ".join(sorted(G.atoms(g)))
-        if '"last"' not in pos.replace("'", '"'):
-            okl = False
-    rep.check(okl, "R3", f"{fl.file}::Matcher._find_and_actvate_lasts only last()", "a component other than last() may be activated on the blank last line", K.where(fl, fl.node))
+    comps = {
+        "L1": ("Function", "last", []), "P": ("Function", "print", ["L2"]), "L2": ("Function", "last", []),
+        "W1": ("Equality", None, ["L3", "P2"]), "L3": ("Function", "last", []), "P2": ("Function", "print", []),
+        "W2": ("Equality", None, ["Y", "L4"]), "Y": ("Function", "yes", []), "L4": ("Function", "last", []), "H": ("Header", "a", []),
+    }
+    store = {"E.children": [Obj(n) for n in ("L1", "P", "W1", "W2", "H")]}
+    for n, (kind, name, kids) in comps.items():
+        store[f"{n}.children"] = [Obj(k) for k in kids]
+        store[f"{n}.name"] = name
+        if kind == "Equality":
+            store[f"{n}.op"] = "->"
+            store[f"{n}.left"] = Obj(kids[0])
+            store[f"{n}.right"] = Obj(kids[1])
+
+    def iso(interp, args, call):
+        o, t = args[0], args[1]
+        tn = t.text if isinstance(t, Residual) else str(t)
+        return isinstance(o, Obj) and o.name in comps and comps[o.name][0] == tn
+
+    it = Interp(idx, types={"self": "Matcher"}, unknown_calls="residual", isinstance_oracle=iso,
+                handlers={".matches": lambda i, c, r, a, k: i.record_call("activated", r.name)})
+    ps = it.run_all(fl, args={"e": Obj("E")}, store=store)
+    got = sorted(c[1] for c in ps[0].calls("activated")) if len(ps) == 1 and ps[0].result[0] == "return" else None
+    want = sorted(["L1", "L2", "W1", "L4"])
+    rep.check(got == want, "R3", f"{fl.file}::Matcher._find_and_actvate_lasts only last()",
+              f"on the blank last line the components activated are {got}; documented {want} (every last(), a `last() -> x` as a whole, nothing else)", K.where(fl, fl.node))
 
 
 def r2_r3(idx, rep):
@@ -291,8 +315,9 @@ def r5(idx, rep):
         fi, v = s["fi"], s["value"]
         if fi.qual in ("CsvPath.__init__",) or (fi.name == "is_frozen"):
             continue
-        if fi.qual in unfreezers:
-            seen.add(fi.qual)
+        own = K.owners_of(idx, fi, unfreezers)
+        if own:
+            seen |= own
         elif K.is_const(v, False):
             rep.fail("R5", f"{fi.file}::{fi.qual} unfreezes", "only last() (or a when/do whose left side overrides frozen) may unfreeze a frozen path", K.where(fi, s["stmt"]))
         else:
